@@ -230,6 +230,12 @@ fn run_part(run: &mut Run) {
                 let st: Vec<Sty> = styles(tier.pick(5, 7)).into_iter().filter(|s| !s.fill || s.w <= 1).collect();
                 product(&sh, &st)
             }, check_prim);
+            run.sweep_vec("polylines-dense", "every 3-vertex polyline on an 8x8 grid (thorough 10x10) and every 4-vertex polyline on a 4x4 grid (thorough 5x5) x stroke widths 2, 3 (4-vertex: also 4)", || {
+                let thick = |w: u32| Sty { fill: false, stroke: true, w, al: 0, same: false };
+                let mut v = product(&polyline_dense(3, tier.pick(8, 10), (-3, -2)), &[thick(2), thick(3)]);
+                v.extend(product(&polyline_dense(4, tier.pick(4, 5), (-2, -1)), &[thick(2), thick(3), thick(4)]));
+                v
+            }, check_prim);
             run.sweep_vec("dotted-rectangles", "rectangles w,h in 0..=14 x S(9) with StrokeStyle::Dotted", || {
                 let mut sh = vec![];
                 for w in 0..=14 {
